@@ -48,6 +48,7 @@ def run(ctx):
     c06.r23(a)
     c07.r1(a)
     c07.r8(MultiAlias(ctx, {"C07.R8": "C01.R8"}))      # one parser (and its read-ahead buffer) per connection
+    c07.chunk_error_closes(ctx, "C01.R8")                # nothing is parsed behind a chunked body whose framing was found broken
 
 
 # ------------------------------------------------------------------------------- R1
